@@ -185,7 +185,11 @@ def pat_top_variants(p):
 def short(path):
     """Last two segments of a path, for keys: TypeEntryDetails::Box."""
     parts = path.split("::")
-    return "::".join(parts[-2:]) if len(parts) >= 2 else path
+    if len(parts) >= 2 and parts[-2][:1].isupper():
+        return "::".join(parts[-2:])
+    if len(parts) >= 2 and parts[-2].startswith("<"):
+        return "::".join(parts[-2:])
+    return parts[-1]
 
 
 def lit_str(n):
@@ -440,3 +444,149 @@ def has_return(tree):
         if x.get("k") == "macro" and x.get("name") in ("panic", "unreachable", "todo", "unimplemented"):
             return True
     return False
+
+
+# --------------------------------------------------------------------------- compact rendering / outcomes
+def src(n, depth=0):
+    """Compact source-like rendering of a HIR node (for messages and simple matching)."""
+    if n is None:
+        return ""
+    if isinstance(n, list):
+        return ", ".join(src(x, depth + 1) for x in n)
+    if not isinstance(n, dict) or depth > 12:
+        return "…"
+    k = n.get("k")
+    if k == "path":
+        return n.get("path", "").split("::")[-1] if n.get("res") == "local" else short(n.get("path", ""))
+    if k == "lit":
+        v = n["v"]
+        if "str" in v:
+            return json.dumps(v["str"])
+        if "char" in v:
+            return "'%s'" % v["char"]
+        return str(list(v.values())[0])
+    if k == "field":
+        return "%s.%s" % (src(n["e"], depth + 1), n["name"])
+    if k == "mcall":
+        return "%s.%s(%s)" % (src(n["recv"], depth + 1), n["name"], src(n.get("args", []), depth + 1))
+    if k == "call":
+        f = short(n["fn"]) if n.get("fn") else src(n.get("f"), depth + 1)
+        return "%s(%s)" % (f, src(n.get("args", []), depth + 1))
+    if k == "ref":
+        return "&%s%s" % ("mut " if n.get("mut") else "", src(n["e"], depth + 1))
+    if k == "un":
+        return "%s%s" % ({"Not": "!", "Deref": "*", "Neg": "-"}.get(n.get("op"), n.get("op", "")), src(n["e"], depth + 1))
+    if k == "bin":
+        return "(%s %s %s)" % (src(n["l"], depth + 1), n["op"], src(n["r"], depth + 1))
+    if k == "macro":
+        return "%s!(%s)" % (n["name"], src(n.get("args", []), depth + 1))
+    if k == "struct":
+        return "%s{%s}" % (short(n["path"]), ", ".join("%s: %s" % (f[0], src(f[1], depth + 1)) for f in n.get("fields", [])))
+    if k == "block":
+        parts = [src(x, depth + 1) for x in n.get("stmts", [])]
+        if n.get("tail"):
+            parts.append(src(n["tail"], depth + 1))
+        return "{ %s }" % "; ".join(parts)
+    if k == "ret":
+        return "return %s" % src(n.get("e"), depth + 1)
+    if k == "let":
+        return "let %s = %s" % (psrc(n["pat"]), src(n.get("init"), depth + 1))
+    if k == "letx":
+        return "let %s = %s" % (psrc(n["pat"]), src(n.get("init"), depth + 1))
+    if k == "if":
+        return "if %s %s else %s" % (src(n["cond"], depth + 1), src(n["then"], depth + 1), src(n.get("else"), depth + 1))
+    if k == "match":
+        if n.get("src") == "try":
+            inner = n["scrut"].get("args", [None])[0] if n["scrut"].get("k") == "call" else n["scrut"]
+            return "%s?" % src(inner, depth + 1)
+        return "match %s { %s }" % (src(n["scrut"], depth + 1), " | ".join("%s => %s" % (psrc(a["pat"]), src(a["body"], depth + 1)) for a in n["arms"]))
+    if k == "closure":
+        return "|%s| %s" % (", ".join(psrc(p) for p in n.get("params", [])), src(n["body"], depth + 1))
+    if k == "index":
+        return "%s[%s]" % (src(n["e"], depth + 1), src(n["i"], depth + 1))
+    if k == "tup":
+        return "(%s)" % src(n.get("es", []), depth + 1)
+    if k == "array":
+        return "[%s]" % src(n.get("es", []), depth + 1)
+    if k == "cast":
+        return "%s as _" % src(n["e"], depth + 1)
+    if k in ("assign", "assignop"):
+        return "%s %s %s" % (src(n["l"], depth + 1), n.get("op", "="), src(n["r"], depth + 1))
+    if k == "loop":
+        return "loop %s" % src(n["body"], depth + 1)
+    return "<%s>" % k
+
+
+def psrc(p):
+    if not isinstance(p, dict):
+        return "?"
+    k = p.get("k")
+    if k == "wild":
+        return "_"
+    if k == "bind":
+        return p["name"] + ("@" + psrc(p["sub"]) if p.get("sub") else "")
+    if k == "struct":
+        return "%s{%s%s}" % (short(p["path"]), ", ".join("%s: %s" % (f[0], psrc(f[1])) for f in p["fields"]), ", .." if p.get("rest") else "")
+    if k == "tstruct":
+        return "%s(%s%s)" % (short(p["path"]), ", ".join(psrc(x) for x in p["pats"]), ", .." if p.get("rest") else "")
+    if k == "path":
+        return short(p["path"])
+    if k == "or":
+        return " | ".join(psrc(x) for x in p["pats"])
+    if k == "tuple":
+        return "(%s)" % ", ".join(psrc(x) for x in p["pats"])
+    if k == "lit":
+        v = p["v"]
+        return json.dumps(v.get("str")) if "str" in v else str(list(v.values())[0])
+    if k == "slice":
+        return "[%s]" % ", ".join(psrc(x) for x in p["pats"])
+    return "<%s>" % k
+
+
+def is_none_path(n):
+    return isinstance(n, dict) and n.get("k") == "path" and n.get("path", "").endswith("::None")
+
+
+def is_ret_none(n):
+    return isinstance(n, dict) and n.get("k") == "ret" and is_none_path(n.get("e"))
+
+
+def block_last(n):
+    """The value-producing / last node of a block-like body."""
+    while isinstance(n, dict) and n.get("k") == "block":
+        if n.get("tail") is not None:
+            n = n["tail"]
+        elif n.get("stmts"):
+            n = n["stmts"][-1]
+        else:
+            return n
+    return n
+
+
+def outcome(body):
+    """Classify an arm body: 'ret-none' | 'ret-err' | 'ret' | 'panic' | 'unit' | 'value'."""
+    last = block_last(body)
+    if not isinstance(last, dict):
+        return "unit"
+    k = last.get("k")
+    if k == "ret":
+        e = last.get("e")
+        if is_none_path(e):
+            return "ret-none"
+        if isinstance(e, dict) and e.get("k") == "call" and e.get("fn", "").endswith("::Err"):
+            return "ret-err"
+        return "ret"
+    if k == "macro" and last.get("name") in ("panic", "unreachable", "todo", "unimplemented"):
+        return "panic"
+    if k == "block" and not last.get("stmts") and last.get("tail") is None:
+        return "unit"
+    if k == "tup" and not last.get("es"):
+        return "unit"
+    return "value"
+
+
+def top_stmts(h):
+    b = h["body"]
+    if b.get("k") != "block":
+        return [b]
+    return list(b.get("stmts", [])) + ([b["tail"]] if b.get("tail") is not None else [])
